@@ -49,7 +49,7 @@ import (
 
 func TestMain(m *testing.M) { ev.Main(m) }
 
-var rec = ev.For("C32", "rapid state machine (t.Repeat) over CreateSubscription / DeleteSubscriptions / CreateMonitoredItems / DeleteMonitoredItems / SetMonitoringMode from 2-3 sessions of one in-process server, targets drawn from {own, foreign, stale, never issued}; benign subscription parameters; non-trivial = the history created a subscription and a monitored item, contained a foreign or unknown operation that was answered, and the final owner sweep verified at least one object; distinct by hash of the executed operation list")
+var rec = ev.For("C32", "rapid state machine (t.Repeat) over CreateSubscription / DeleteSubscriptions / CreateMonitoredItems / DeleteMonitoredItems / SetMonitoringMode from 2-3 sessions of one in-process server, plus simultaneous CreateSubscription / CreateMonitoredItems requests from all sessions, targets drawn from {own, foreign, stale, never issued}; benign subscription parameters; non-trivial = the history created a subscription and a monitored item, contained a foreign or unknown operation that was answered, and the final owner sweep verified at least one object; distinct by hash of the executed operation list")
 
 const testName = "TestIDs"
 
@@ -71,6 +71,7 @@ type opT struct {
 	N      int    `json:"n,omitempty"`
 	Mode   uint32 `json:"mode,omitempty"`
 	Settle bool   `json:"settle,omitempty"`
+	K      int    `json:"k,omitempty"` // parallelCreate: sessions 0..K-1 take part
 }
 
 type caseT struct {
@@ -324,6 +325,121 @@ func (r *runT) exec(op opT) (string, error) {
 			r.class("createSub:id-fresh")
 		}
 		m.issuedSubs[id] = true
+		return "", nil
+
+	case "parallelCreate":
+		// sessions 0..K-1 send CreateSubscription at the same moment, then (N > 0)
+		// CreateMonitoredItems(N) on the subscription each of them got; every id
+		// must differ from the others' and from every id still in use
+		k := op.K
+		if k < 2 {
+			return "", nil
+		}
+		type out struct {
+			resp ua.Response
+			st   ua.StatusCode
+			err  error
+		}
+		fire := func(reqs []ua.Request) []out {
+			outs := make([]out, len(reqs))
+			var wg sync.WaitGroup
+			start := make(chan struct{})
+			for i := range reqs {
+				if reqs[i] == nil {
+					continue
+				}
+				wg.Add(1)
+				go func(i int) {
+					defer wg.Done()
+					<-start
+					outs[i].resp, outs[i].st, outs[i].err = r.e.send(i, reqs[i])
+				}(i)
+			}
+			close(start)
+			wg.Wait()
+			return outs
+		}
+		reqs := make([]ua.Request, k)
+		for i := range reqs {
+			reqs[i] = &ua.CreateSubscriptionRequest{RequestedPublishingInterval: 500, RequestedLifetimeCount: 10000,
+				RequestedMaxKeepAliveCount: 10, MaxNotificationsPerPublish: 0, PublishingEnabled: true}
+		}
+		outs := fire(reqs)
+		newSubs := make([]*subM, k)
+		var firstErr error
+		for i, o := range outs {
+			entry := &subM{}
+			m.subs = append(m.subs, entry)
+			if o.err != nil {
+				firstErr = o.err
+				continue
+			}
+			cr, ok := o.resp.(*ua.CreateSubscriptionResponse)
+			if !ok {
+				r.class("parallelCreate:sub:fault:%v", o.st)
+				continue
+			}
+			id := cr.SubscriptionID
+			if old := m.liveSub(id); old != nil {
+				return fmt.Sprintf("concurrent CreateSubscription requests of %d sessions: session %d got subscription id %d, which is in use by a live subscription of session %d", k, i, id, old.owner), nil
+			}
+			*entry = subM{created: true, id: id, owner: i, live: true}
+			m.issuedSubs[id] = true
+			newSubs[i] = entry
+		}
+		if firstErr != nil {
+			return "", firstErr
+		}
+		r.class("parallelCreate:subs")
+		if op.N <= 0 {
+			return "", nil
+		}
+		reqs = make([]ua.Request, k)
+		for i := range reqs {
+			if newSubs[i] == nil {
+				continue
+			}
+			req := &ua.CreateMonitoredItemsRequest{SubscriptionID: newSubs[i].id, TimestampsToReturn: ua.TimestampsToReturnBoth}
+			for j := 0; j < op.N; j++ {
+				req.ItemsToCreate = append(req.ItemsToCreate, &ua.MonitoredItemCreateRequest{
+					ItemToMonitor:  &ua.ReadValueID{NodeID: r.e.nodes[(i*op.N+j)%len(r.e.nodes)], AttributeID: ua.AttributeIDValue, DataEncoding: &ua.QualifiedName{}},
+					MonitoringMode: ua.MonitoringModeReporting,
+					RequestedParameters: &ua.MonitoringParameters{ClientHandle: uint32(len(m.items) + i*op.N + j + 1), SamplingInterval: 500,
+						Filter: ua.NewExtensionObject(nil), QueueSize: 1, DiscardOldest: true},
+				})
+			}
+			reqs[i] = req
+		}
+		outs = fire(reqs)
+		for i, o := range outs {
+			if reqs[i] == nil {
+				continue
+			}
+			if o.err != nil {
+				firstErr = o.err
+				continue
+			}
+			cr, ok := o.resp.(*ua.CreateMonitoredItemsResponse)
+			if !ok {
+				r.class("parallelCreate:items:fault:%v", o.st)
+				continue
+			}
+			for j, res := range cr.Results {
+				if j >= op.N || res == nil || !good(res.StatusCode) {
+					continue
+				}
+				id := res.MonitoredItemID
+				if old := m.liveItem(id); old != nil {
+					return fmt.Sprintf("concurrent CreateMonitoredItems requests of %d sessions: session %d (subscription %d) got monitored item id %d, which is in use (subscription %d, session %d)", k, i, newSubs[i].id, id, old.sub, old.owner), nil
+				}
+				m.items = append(m.items, &itemM{created: true, id: id, sub: newSubs[i].id, owner: i, live: true})
+				m.issuedItems[id] = true
+			}
+		}
+		if firstErr != nil {
+			return "", firstErr
+		}
+		r.class("parallelCreate:items")
 		return "", nil
 
 	case "deleteSubs":
@@ -739,6 +855,21 @@ func TestIDs(t *testing.T) {
 					r.classes["_createdSub"]++
 				}
 			},
+			"parallelCreate": func(t *rapid.T) {
+				op := opT{Op: "parallelCreate", K: c.Sessions, N: rapid.IntRange(0, 3).Draw(t, "nItems"), Settle: rapid.Bool().Draw(t, "settle")}
+				ns, ni := len(m.subs), len(m.items)
+				step(op)
+				for _, s := range m.subs[ns:] {
+					if s.created {
+						r.classes["_createdSub"]++
+					}
+				}
+				for _, it := range m.items[ni:] {
+					if it.created {
+						r.classes["_createdItem"]++
+					}
+				}
+			},
 			"deleteSubs": func(t *rapid.T) {
 				sess := rapid.IntRange(0, c.Sessions-1).Draw(t, "sess")
 				op := opT{Op: "deleteSubs", Sess: sess, Settle: rapid.Bool().Draw(t, "settle")}
@@ -843,6 +974,9 @@ func TestReplay(t *testing.T) {
 		for i, op := range c.Ops {
 			if op.Sess < 0 || op.Sess >= c.Sessions {
 				continue
+			}
+			if op.K > c.Sessions {
+				op.K = c.Sessions
 			}
 			msg, err := r.exec(op)
 			if err != nil {
